@@ -53,9 +53,8 @@ def obligation_name(pid, job, o, tags):
     tag = o.get("tag") or tags.get((o["file"], o["line"]))
     if tag is None:
         # CBMC-generated safety obligation: name it by function and class
-        cls = (o["id"] or "").split(".")
-        cls = cls[-2] if len(cls) >= 2 else (o["id"] or "obligation")
-        tag = "%s@%s:%d" % (cls, o["function"], o["line"])
+        desc = re.sub(r"[^a-z0-9]+", "-", (o.get("desc") or "obligation").lower()).strip("-")[:48]
+        tag = "%s@%s:%d" % (desc, o["function"], o["line"])
     return "%s/%s/%s" % (pid, job.name, tag), tag
 
 
